@@ -208,7 +208,7 @@ PROPS = {
     "C13": dict(
         module="Evl.Props.C13",
         theorems=["Evl.C13.writer_success", "Evl.C13.writer_error", "Evl.C13.table_lww", "Evl.C13.filesink_specials",
-                  "Evl.C13.channel_exactly_one", "Evl.C13.write_under_lock"],
+                  "Evl.C13.channel_exactly_one", "Evl.C13.write_under_lock", "Evl.C13.channel_single_select"],
         runs=[dict(model="sinks", sub="sinks", driver="sinks", quick=["-n", "4000"], thorough=["-n", "120000"], search=["-n", "40000"]), FS_RUN],
         oracle_prefixes=["C13"], models=["M9 Sinks", "Generated.LockSites(sinkWrites)"],
         trusted_base=TB_COMMON + ["gofacts translator: the WriteTo call sites and the lock held there are regenerated from source"],
@@ -241,13 +241,13 @@ PROPS = {
     ),
     "C09": dict(
         module="Evl.Props.C09",
-        theorems=["Evl.C09.tag_secure", "Evl.C09.unknown_redacted", "Evl.C09.action_keep_iff", "Evl.C09.filterOne_noleak", "Evl.C09.flat_noleak", "Evl.C09.fail_closed"],
+        theorems=["Evl.C09.tag_secure", "Evl.C09.unknown_redacted", "Evl.C09.action_keep_iff", "Evl.C09.filterLeaf_noleak", "Evl.C09.filterOne_noleak", "Evl.C09.filterElems_noleak", "Evl.C09.slice_noleak", "Evl.C09.flat_noleak", "Evl.C09.fail_closed"],
         runs=[ENC_RUN], oracle_prefixes=["C09"], models=["M7 Encrypt (tag resolution, flat structs)"],
         trusted_base=TB_COMMON, assumptions=ENC_ASSUME, rule=ENC_RULE,
     ),
     "C10": dict(
         module="Evl.Props.C10",
-        theorems=["Evl.C10.shape", "Evl.C10.length_preserved", "Evl.C10.identity"],
+        theorems=["Evl.C10.shape", "Evl.C10.filterElems_length", "Evl.C10.length_preserved", "Evl.C10.identity"],
         runs=[ENC_RUN], oracle_prefixes=["C10"], models=["M7 Encrypt (flat structs)"],
         trusted_base=TB_COMMON, assumptions=ENC_ASSUME + ["partial: 'the input is not modified' is decided by the deep before/after snapshot comparison of the harness on every case; Go-level aliasing is outside the value model"],
         rule=ENC_RULE,
@@ -255,7 +255,7 @@ PROPS = {
     "C16": dict(
         module="Evl.Props.C16",
         theorems=["Evl.C16.key_in_force", "Evl.C16.per_event_precedence", "Evl.C16.rotation", "Evl.C16.last_wrapper_wins", "Evl.C16.deterministic"],
-        runs=[ENC_RUN, race_run("stockenc", 3, 30, 10)], oracle_prefixes=["C16"], models=["M7 Encrypt (key material)"],
+        runs=[ENC_RUN], oracle_prefixes=["C16"], models=["M7 Encrypt (key material)"],
         trusted_base=TB_COMMON, assumptions=ENC_ASSUME + ["go-kms-wrapping AEAD decrypt o encrypt = id; HKDF and HMAC-SHA256 themselves; atomicity of one value under concurrent rotation is C19's lock-set fact for encrypt.Filter"],
         rule=ENC_RULE,
     ),
